@@ -85,6 +85,14 @@ def run(tier: str) -> int:
                 (gen / rel).write_bytes(text)
             else:
                 (gen / rel).write_text(text)
+        # an excluded directory next to directories whose names merely BEGIN with its name: what lies below `build` says nothing
+        # about `build_tools` or `builder`, whichever the walk visits first
+        for rel, text in (("pre/build/skipped.py", "def skipped(a):\n    return a\n"), ("pre/build/deep/skipped2.py", "def skipped2(a):\n    return a\n"),
+                          ("pre/build_tools/kept.py", "def kept(a):\n    return a\n"), ("pre/builder/deep/kept2.py", "def kept2(a):\n    return a\n"),
+                          ("pre/buil/kept3.py", "def kept3(a):\n    return a\n"), ("pre/tests/skipped3.py", "def skipped3(a):\n    return a\n"),
+                          ("pre/tests_old/kept4.js", "function kept4(a) {\n  return a;\n}\n"), ("pre/test/kept5.py", "def kept5(a):\n    return a\n")):
+            (gen / rel).parent.mkdir(parents=True, exist_ok=True)
+            (gen / rel).write_text(text)
         # two names that differ only in their Unicode normalisation form (composed / decomposed e-acute) are two files
         (gen / "uni").mkdir(parents=True, exist_ok=True)
         (gen / "uni" / "caf\u00e9.py").write_text("def composed(a):\n    return a\n")
